@@ -21,7 +21,10 @@ def run():
     buf = io.StringIO()
     with contextlib.redirect_stdout(buf):
         for name in ("scenario_entry_points_match_reference", "scenario_invariances", "scenario_wide_dynamic_range", "scenario_scorer"):
-            getattr(O, name)()
+            try:
+                getattr(O, name)()
+            except Exception as e:  # the code under test raised where the reference computes a value
+                O.FAILURES.append("%s: the real code raised %r" % (name, e))
     return [f for f in O.FAILURES if f], cnt[0]
 
 
